@@ -5,7 +5,7 @@ from props._solver import standard_run, solver_sweep
 
 
 def run(ctx):
-    corr, viol = standard_run(ctx, "C02", {"enum", "term", "crash"}, 700, 12000,
+    corr, viol = standard_run(ctx, "C02", {"enum", "term", "crash", "stack", "oob"}, 700, 12000,
                               ["split_low_ground", "duplicate_shared_domain"], with_opt=False)
     # the multiset must not depend on the order in which the constraints were posted
     import corr_engine as ce
@@ -28,4 +28,4 @@ def run(ctx):
             viol.append({"kind": "order", "problem": cases[i]["problem"], "permuted": cases[i + 1]["problem"], "cfg": cases[i]["cfg"],
                          "detail": f"posting order changes the solution multiset: {len(a[1])} vs {len(b[1])}"})
     return {"corr_diffs": corr, "violations": viol, "component": "solveAll vs BacktrackSolver.solve() (sequence, statistics)",
-            "partial": ["the exactly-once theorem (generic DFS invariant) is stated as C02_full; proved so far: no solution is lost by a propagation pass (bcLoopG_keeps_solutions), decisions partition (C09), every reported vector is a solution (C01)"]}
+            "assumptions": ["an enumeration that aborts with an exception (stack overflow with the default height, index error) on a generated problem does not 'yield every solution and then stop': reported as a violation"]}
